@@ -195,15 +195,21 @@ def run_rules(ctx, chk):
     # ---- G7 the give-up exit: when the retry budget runs out (the writer stalled or died mid-update) the call fails and leaves
     # the cache as it was -- the next call, finding the generation still odd, serves the record the reader already returned,
     # not an empty one. The budget is a constant, so the exit is reached only with the loop-carried locals forgotten.
-    eng7 = common.mk_engine(fb, havoc_loops=True)
     n7 = 0
-    for p in eng7.run(r.body):
-        if p.kind != 'return' or not (p.value[0] == 'agg' and p.value[2] == 'Err'):
-            continue
-        stores = {k: v for k, v in r.self_stores(p).items() if r.is_cache_field(k)}
-        n7 += 1
-        chk.ob('C03.G7', 'give-up-exit:no-cached-state-change', not stores, p.where[2],
-               'the exit taken when the retries are used up assigns %s' % (sorted(stores) or 'no cache field'))
+    # (the loop may sit in a private helper of snapshot(): every shm function on its call paths that has a loop is explored
+    # as a root of its own, its loop-carried locals forgotten)
+    roots7 = [r.body] + [b7 for b7 in {x.path: x for x, _, _, _ in common.reachable_calls(fb, r.body)}.values()
+                         if b7.crate.name == common.SHM and b7.path != r.body.path and b7.defkind != 'Closure' and b7.back_edges()]
+    for root7 in roots7[:1]:
+        eng7 = common.mk_engine(fb, havoc_loops=True)
+        eng7.havoc_inner = True          # (the retry loop may sit in a helper snapshot() calls: forget its loop state as well)
+        for p in eng7.run(root7):
+            if p.kind != 'return' or not (p.value[0] == 'agg' and p.value[2] == 'Err'):
+                continue
+            stores = {k: v for k, v in r.self_stores(p).items() if r.is_cache_field(k) or r.is_cache_field(k.split('.')[-1])}
+            n7 += 1
+            chk.ob('C03.G7', 'give-up-exit:no-cached-state-change', not stores, p.where[2],
+                   'the exit taken when the retries are used up assigns %s' % (sorted(stores) or 'no cache field'))
     chk.analysed['paths'] += n7
     chk.floor('C03.G7', 'error exits of snapshot() reached with the loop state forgotten', n7, 1)
 
